@@ -29,6 +29,32 @@ CLAIMED = {
         technique="static table evaluation + per-path effect extraction over a hand-built CFG (ast)",
         ref="4/C04",
     ),
+    "C10": dict(
+        level="other",
+        text="SCP_SCU_ROLES is evaluated statically and compared with the PS3.7 D.3.3.4 formula on all 45 cells; the "
+        "role sections of negotiate_as_acceptor and negotiate_unrestricted are extracted by shape into parameter "
+        "records from which the acceptor's decision table over every (proposal, supported-role setting) is computed "
+        "(no role beyond the proposal, never accepted without a usable role); a typestate proves one result per "
+        "proposed context on every path; iteration independence (no loop-carried local state), reply-map ownership, "
+        "transfer-syntax loop, result codes per branch and ACSE's mode selection are structural.",
+        note="Trusted: CPython ast; spec/ps3_7_roles.json (the formula); the shape extraction in sa/nego_model.py (an "
+        "unrecognised shape is ANALYSIS-ERROR). Not decided: functional correctness over all proposal lists "
+        "(dict-key collisions, duplicate context IDs), UID string semantics.",
+        technique="static table evaluation vs a formula + shape-extracted decision tables + path typestate and def-before-use dataflow over a hand-built CFG (ast)",
+        ref="4/C10",
+    ),
+    "C11": dict(
+        level="other",
+        text="Acceptor and requestor role logic, the requestor's None->False normalisation and the role sub-item codec "
+        "are extracted by shape and composed over the complete finite role space (10 proposals x 9 acceptor settings "
+        "in normal mode, 10 in unrestricted mode): same acceptance and complementary roles at every point. "
+        "negotiate_as_requestor is checked structurally (one output per requested id, syntax/result from the reply with "
+        "that id, missing ids rejected, no loop-carried state); the wire leg is the layout of the three items involved.",
+        note="Trusted: CPython ast; C01's codec model; sa/nego_model.py shape extraction. Not decided: encoding of "
+        "arbitrary UID strings; that the peer is pynetdicom is assumed by the property itself.",
+        technique="composition of shape-extracted decision tables over a finite role space (exhaustive) + structural def-use checks (ast)",
+        ref="4/C11",
+    ),
     "C15": dict(
         level="other",
         text="Structural decision of the fragmentation protocol: the PDV overhead is derived from the "
